@@ -40,7 +40,7 @@ def run(ctx):
   ctx.expect("R-C19-HENSEL", 8, "two loops x (base, identity, exponent, reduction)")
   ctx.expect("R-C19-SQRT", 3, "roots, solvability, small k")
   ctx.expect("R-C19-DIVMOD", 2, "identity + rounding offset")
-  ctx.expect("R-C19-ROOTS", 3, "three finders")
+  ctx.expect("R-C19-ROOTS", 4, "three finders + candidate coverage")
   ctx.expect("R-C19-CF", 2, "recurrence + output")
 
 
@@ -233,6 +233,7 @@ def rule_sqrt(ctx):
   ctx.record(R, f.where, "no roots iff no inverse square root", oke, "[] exactly when InverseSqrt2exp(n, k) is None" if oke else "empty result is not tied to InverseSqrt2exp returning None")
   small = [e for e in rets if not isinstance(e.data["value"], Seq)]
   oks = False
+  smallwhy = ""
   for e in small:
     v = as_poly(e.data["value"]).as_atom()
     if v is not None and v.kind == "map":
@@ -240,8 +241,30 @@ def rule_sqrt(ctx):
       sa = src.as_atom()
       if sa is not None and sa.kind == "filter" and sa.args[0] == sym.mk("range", Mk):
         x = sym.mk("idx", sym.mk("range", Mk), Poly.atom([a for a in sa.args[1].all_atoms() if a.kind == "bv"][0])) if [a for a in sa.args[1].all_atoms() if a.kind == "bv"] else None
-        oks = "mod(" in repr(sa.args[1]) and "param('n')" in repr(sa.args[1]) and any(f_[0] == "cmp" and f_[1] == "Lt" and as_poly(f_[2]) == k and as_poly(f_[3]).as_int() == 3 for f_ in e.facts)
-  ctx.record(R, f.where, "k < 3: exhaustive search", oks, "all x in range(2^k) with (x*x - n) % 2^k == 0" if oks else "small-k branch is not the exhaustive filter over range(2**k)")
+        gate = any(f_[0] == "cmp" and f_[1] == "Lt" and as_poly(f_[2]) == k and as_poly(f_[3]).as_int() == 3 for f_ in e.facts)
+        conds = sym.FILTER_CONDS.get(sa.args[1].as_atom().args[0]) if sa.args[1].as_atom() is not None and sa.args[1].as_atom().kind == "cond" else None
+        bvs = [a for a in sa.args[1].all_atoms() if a.kind == "bv"] if conds else []
+        if gate and conds and len(conds) == 1 and conds[0][0] == "cmp" and conds[0][1] == "Eq" and len(set(bvs)) <= 1:
+          # x^2 == n (mod 2^k) for every odd n, reduced or not: (x^2 - n) % M == 0, or both sides reduced modulo M
+          L_, R_ = as_poly(conds[0][2]), as_poly(conds[0][3])
+          xs = [a for a in (L_ - R_).all_atoms() if a.kind == "bv"]
+          xv = Poly.atom(xs[0]) if xs else None
+          def reduced(p):
+            a = p.as_atom()
+            return as_poly(a.args[0]) if a is not None and a.kind == "mod" and len(a.args) == 2 and as_poly(a.args[1]) == Mk else None
+          diff = None
+          if xv is not None:
+            if reduced(L_) is not None and reduced(R_) is not None:
+              diff = reduced(L_) - reduced(R_)
+            elif reduced(L_) is not None and R_.is_zero():
+              diff = reduced(L_)
+            elif reduced(R_) is not None and L_.is_zero():
+              diff = reduced(R_)
+          if diff is not None and ((diff - (xv * xv - n)).is_zero() or (diff + (xv * xv - n)).is_zero()):
+            oks = True
+          elif xv is not None:
+            smallwhy = "the filter `%s` is not x^2 == n (mod 2^k) for unreduced n (n >= 2^k or n < 0 has roots but matches nothing)" % (repr(conds[0])[:90])
+  ctx.record(R, f.where, "k < 3: exhaustive search", oks, "all x in range(2^k) with x*x == n (mod 2^k)" if oks else (smallwhy or "small-k branch is not the exhaustive filter over range(2**k)"))
   # argument check: raises for even n / negative k
   raises = [e for e in w.events if e.kind == "raise"]
   okr = bool(raises)
@@ -361,6 +384,38 @@ def rule_roots(ctx):
       if not good:
         probs.append("`%s` is not dominated by the verification of f on the returned root (%s)" % (norm(e.node), "y != 0 and n %% y == 0" if fname.endswith("modp") else "f(*roots) %% n == 0"))
     ctx.record(R, f.where, "release guard", not probs, "; ".join(sorted(set(probs))) or "every non-None return is verified on the very root returned")
+    if fname == "univariate_modp":
+      # "do find the planted root": every candidate with -b < root < b reaches the verification; a pass of the candidate loop that leaves
+      # without evaluating f on the candidate must not be selected by a comparison that holds for some root inside the documented range
+      from pcstatic import regions
+      bpar = P("param", f.params()[1])
+      dropped = []
+      n_paths = 0
+      for info in w.loop_info.values():
+        if not any(kind == "return" for kind, _, _, _, _ in info["body_paths"]):
+          continue
+        for kind, val, s_, since, vis in info["body_paths"]:
+          if kind == "return":
+            continue
+          n_paths += 1
+          conds = [(c_, pol) for c_, pol, node in s_.pc[len(vis["head"].pc):]] if hasattr(vis["head"], "pc") else []
+          if any("lcall(lit('f')" in repr(c_) for c_, pol in conds):
+            continue            # rejected by the verification itself
+          cands = set()
+          for c_, pol in conds:
+            for x in regions.collect([c_])[0] if c_[0] in ("cmp", "and", "or", "not") else []:
+              if x != bpar.as_atom():
+                cands.add(x)
+          for rx in cands:
+            for sample in (-9, -5, -1, 0, 1, 5, 9):
+              valn = regions.Valuation({rx: sample, bpar.as_atom(): 10})
+              try:
+                if all(regions.eval_cond(c_, valn) == pol for c_, pol in conds):
+                  dropped.append("a candidate root %d (bound 10) leaves the loop untested on the path [%s]" % (sample, " & ".join(("" if pol else "not ") + repr(c_)[:70] for c_, pol in conds)))
+                  break
+              except regions.Unknown:
+                break
+      ctx.record(R, f.where, "every candidate in (-b, b) is verified", not dropped and n_paths > 0, dropped[0] if dropped else "no pass of the candidate loop skips the verification of f on a root inside the documented range" if n_paths else "candidate loop not found")
 
 
 def rule_cf(ctx):
